@@ -403,7 +403,8 @@ func randomAnimInput(rng *rand.Rand, prop string, big bool) animEncInput {
 		cur = editPicture(rng, cur, alphaMode)
 		cur = editPicture(rng, cur, alphaMode)
 	}
-	var before *image.NRGBA // the picture before the last edit: "something appears, then disappears again"
+	undersized := rng.Intn(8) == 0 // a history in which most frames are smaller than the canvas, each with its own extent
+	var before *image.NRGBA        // the picture before the last edit: "something appears, then disappears again"
 	for i := 0; i < n; i++ {
 		if i > 0 {
 			if before != nil && rng.Intn(4) == 0 {
@@ -418,7 +419,7 @@ func randomAnimInput(rng *rand.Rand, prop string, big bool) animEncInput {
 			}
 		}
 		p := cur
-		if rng.Intn(12) == 0 && cw > 1 && ch > 1 { // a frame smaller than the canvas
+		if (rng.Intn(12) == 0 || (undersized && rng.Intn(3) > 0)) && cw > 1 && ch > 1 { // a frame smaller than the canvas
 			p = cur.SubImage(image.Rect(0, 0, 1+rng.Intn(cw), 1+rng.Intn(ch))).(*image.NRGBA)
 			cur = padToCanvas(p, cw, ch)
 		}
